@@ -1,6 +1,8 @@
 import Pyunicorn.Lemmas.Window
 import Pyunicorn.Lemmas.WindowShuffle
 import Pyunicorn.Lemmas.WindowFloat
+import Pyunicorn.Lemmas.WindowFloat64
+import Pyunicorn.Lemmas.WindowFloatExact
 import Pyunicorn.Generated.ArithC13
 /-!
 # C13 — Data windows select exactly the requested samples; anomalies sum
@@ -1807,5 +1809,322 @@ theorem float_bounds_exact_case (t : SumTree) :
 samples as leaves and depth `k − 1` -/
 example : (SumTree.seq 3 [1, 4, 1, 5]).leaves = [3, 1, 4, 1, 5] ∧ (SumTree.seq 3 [1, 4, 1, 5]).depth = 4 :=
   SumTree.seq_spec 3 [1, 4, 1, 5]
+
+/-! ## 14. Round 5: `phase_mean()` / `anomaly()` as executed in IEEE binary64 / binary32
+
+The abstract arithmetic of §13 is instantiated.  `rn64` / `rn32` are round-to-nearest-even to 53 /
+24 bits for either sign; `ops64` are the correctly rounded binary64 operations (float64 and int64
+observables), `ops32` the operations NumPy applies to float32 observables (`+`, `-` in binary32, the
+division by the count in double and rounded to binary32 again).  `flPhaseMeanLoop P` / `flAnomalyOf P`
+are the loops of `phase_mean()` / `anomaly()` with every operation rounded, the sum over axis 0
+running row after row as `np.add.reduce` does on a C-ordered block.  The driver executes these
+models and the harness compares them bit for bit with the real results.  The theorems are stated
+for every arithmetic `F` satisfying the standard model, run through the *executable* model
+(`F.ops`), and then for the two IEEE instances.  (Exponent range unbounded: no overflow, no
+underflow of the division.) -/
+
+/-- **IEEE binary64 round-to-nearest-even satisfies the standard model** with `u = ud = 2⁻⁵³`:
+every correctly rounded `+`, `-`, `/` has relative error at most `2⁻⁵³`, for operands and results
+of either sign (the hypothesis of the round-4 bounds is a theorem for this arithmetic) -/
+theorem ieee_double_standard_model (a b : ℚ) :
+    |ops64.add a b - (a + b)| ≤ (1 / 2 ^ 53) * |a + b|
+      ∧ |ops64.sub a b - (a - b)| ≤ (1 / 2 ^ 53) * |a - b|
+      ∧ |ops64.div a b - a / b| ≤ (1 / 2 ^ 53) * |a / b| :=
+  ⟨rn64_err _, rn64_err _, rn64_err _⟩
+
+/-- **the float32 path satisfies the standard model** with `u = 2⁻²⁴` and, for the division carried
+out in double and rounded to binary32 again, `ud = 2⁻²⁴ + 2⁻⁵²` (the constants the oracle uses) -/
+theorem ieee_single_standard_model (a b : ℚ) :
+    |ops32.add a b - (a + b)| ≤ (1 / 2 ^ 24) * |a + b|
+      ∧ |ops32.sub a b - (a - b)| ≤ (1 / 2 ^ 24) * |a - b|
+      ∧ |ops32.div a b - a / b| ≤ (1 / 2 ^ 24 + 1 / 2 ^ 52) * |a / b| :=
+  ⟨rn32_err _, rn32_err _, rn32_rn64_err _⟩
+
+/-- rounding is sign-symmetric (so anomalies of the negated observable are the negated anomalies) -/
+theorem ieee_rounding_odd (x : ℚ) : rn64 (-x) = -rn64 x := rn64_neg x
+
+/-- **shape and NaN rows of the float `phase_mean()`** (any rounded operations): `c` rows; row `i`
+is a NaN row exactly when the rational model's row is (the phase has no sample), otherwise it has
+one entry per node -/
+theorem float_exec_phase_mean_shape (P : FlOps) (c n : Nat) (obs : Mat)
+    (h : ∀ r ∈ obs, r.length = n) :
+    (flPhaseMeanLoop P c n obs).length = c
+      ∧ ∀ i, i < c →
+          (((flPhaseMeanLoop P c n obs)[i]? = some none ↔ (phaseMeanLoop c n obs)[i]? = some none)
+            ∧ ∀ mf, (flPhaseMeanLoop P c n obs)[i]? = some (some mf) → mf.length = n) := by
+  rw [flPhaseMeanLoop_eq, phaseMeanLoop_eq]
+  refine ⟨by simp, fun i hi => ?_⟩
+  simp only [phaseMean, List.getElem?_map, List.getElem?_range hi, Option.map_some,
+    Option.some.injEq]
+  have hrows : ∀ r ∈ everyNth c i obs, r.length = n := fun r hr => h r (mem_everyNth _ _ _ _ hr)
+  refine ⟨?_, fun mf hmf => flColMean_length P n _ hrows mf hmf⟩
+  cases hs : everyNth c i obs <;> simp [flColMean, flColSum, colMean]
+
+/-- the shape of the float `anomaly()` is the shape of the observable -/
+theorem float_exec_anomaly_shape (P : FlOps) (c n : Nat) (obs : Mat) (hc : 0 < c)
+    (h : ∀ r ∈ obs, r.length = n) :
+    (flAnomalyOf P c n obs).length = obs.length ∧ ∀ a ∈ flAnomalyOf P c n obs, a.length = n := by
+  rw [flAnomalyOf_closed P c n obs hc]
+  refine ⟨by simp, fun a ha => ?_⟩
+  obtain ⟨t, ht, rfl⟩ := List.getElem_of_mem ha
+  simp only [List.length_zipWith, List.length_range, Nat.min_self] at ht
+  simp only [List.getElem_zipWith, List.getElem_range, flVsub, List.length_zipWith]
+  have hot : obs[t].length = n := h _ (List.getElem_mem _)
+  have hne := everyNth_phase_ne_nil c hc obs t ht
+  have hrows : ∀ r ∈ everyNth c (t % c) obs, r.length = n :=
+    fun r hr => h r (mem_everyNth _ _ _ _ hr)
+  obtain ⟨mf, hmf⟩ : ∃ mf, flColMean P (everyNth c (t % c) obs) = some mf := by
+    cases hs : everyNth c (t % c) obs with
+    | nil => exact absurd hs hne
+    | cons r rs => simp [flColMean, flColSum]
+  have := flColMean_length P n _ hrows mf hmf
+  simp [flMeanRow, hmf, hot, this]
+
+/-- **the phase mean as executed is within the proved bound of the exact phase mean**: for every
+arithmetic satisfying the standard model, cycle length, phase `i` with `k ≥ 1` samples and node `j`,
+`|m̂[i][j] − m[i][j]| ≤ ((1+u)^(k−1)(1+ud) − 1) · mean|observable[i::c, j]|`, where `m̂` is the row
+the float loop stores and `m` the row of the rational model (`phaseMeanLoop`) -/
+theorem float_exec_phase_mean_error {u ud : ℚ} (F : FlArith u ud) (hu : 0 ≤ u) (hud : 0 ≤ ud)
+    (c n i j : Nat) (obs : Mat) (h : ∀ r ∈ obs, r.length = n)
+    (hi : i < c) (hj : j < n) (m mf : Vec)
+    (hm : (phaseMeanLoop c n obs)[i]? = some (some m))
+    (hf : (flPhaseMeanLoop F.ops c n obs)[i]? = some (some mf)) :
+    |mf.getD j 0 - m.getD j 0|
+      ≤ ((1 + u) ^ ((everyNth c i obs).length - 1) * (1 + ud) - 1)
+          * (((column (everyNth c i obs) j).map (|·|)).sum / (everyNth c i obs).length) := by
+  rw [phaseMeanLoop_eq] at hm
+  rw [flPhaseMeanLoop_eq] at hf
+  simp only [phaseMean, List.getElem?_map, List.getElem?_range hi, Option.map_some,
+    Option.some.injEq] at hm hf
+  exact flColMean_error F hu hud n j hj _ (fun r hr => h r (mem_everyNth _ _ _ _ hr)) m mf hm hf
+
+/-- **add-back as executed**: for every cycle length `c ≥ 1` and every sample `t`, the phase
+`t % c` has a computed mean row `m̂`, the computed anomaly row exists with one entry per node, and
+`anomaly[t][j] + m̂[j]` is `observable[t][j]` up to one rounding error of their difference -/
+theorem float_exec_anomaly_add_phase_mean {u ud : ℚ} (F : FlArith u ud) (c n : Nat) (obs : Mat)
+    (hc : 0 < c) (h : ∀ r ∈ obs, r.length = n) (t : Nat) (ht : t < obs.length) :
+    ∃ mf a, (flPhaseMeanLoop F.ops c n obs)[t % c]? = some (some mf)
+      ∧ (flAnomalyOf F.ops c n obs)[t]? = some a
+      ∧ a.length = n
+      ∧ ∀ j, j < n →
+          |a.getD j 0 + mf.getD j 0 - obs[t].getD j 0| ≤ u * |obs[t].getD j 0 - mf.getD j 0| := by
+  have hne := everyNth_phase_ne_nil c hc obs t ht
+  have hrows : ∀ r ∈ everyNth c (t % c) obs, r.length = n :=
+    fun r hr => h r (mem_everyNth _ _ _ _ hr)
+  have hot : obs[t].length = n := h _ (List.getElem_mem _)
+  obtain ⟨mf, hmf⟩ : ∃ mf, flColMean F.ops (everyNth c (t % c) obs) = some mf := by
+    cases hs : everyNth c (t % c) obs with
+    | nil => exact absurd hs hne
+    | cons r rs => simp [flColMean, flColSum]
+  have hrow : flMeanRow F.ops c obs (t % c) = mf := by simp [flMeanRow, hmf]
+  have hlen : mf.length = n := flColMean_length F.ops n _ hrows mf hmf
+  refine ⟨mf, flVsub F.ops obs[t] mf, ?_, ?_, ?_, ?_⟩
+  · rw [flPhaseMeanLoop_eq]
+    simp [List.getElem?_range (Nat.mod_lt t hc), hmf]
+  · rw [flAnomalyOf_closed F.ops c n obs hc]
+    simp [ht, hrow]
+  · simp [flVsub, hot, hlen]
+  · intro j hj
+    unfold flVsub
+    rw [zipWith_getD F.ops.sub _ _ j (by omega) (by omega)]
+    exact float_addback_error F _ _
+
+/-- **zero phase mean as executed**: for every phase `i` with samples and every node `j`, the
+(exact) mean of the computed anomalies `anomaly()[i::c, j]` is at most the error bound of the
+computed mean plus `u` times the mean absolute deviation from the computed mean `m̂` -/
+theorem float_exec_anomaly_phase_mean_error {u ud : ℚ} (F : FlArith u ud) (hu : 0 ≤ u)
+    (hud : 0 ≤ ud) (c n i j : Nat) (obs : Mat) (hc : 0 < c) (h : ∀ r ∈ obs, r.length = n)
+    (hi : i < c) (hT : i < obs.length) (hj : j < n) (mf : Vec)
+    (hf : (flPhaseMeanLoop F.ops c n obs)[i]? = some (some mf)) :
+    |(column (everyNth c i (flAnomalyOf F.ops c n obs)) j).sum / (everyNth c i obs).length|
+      ≤ ((1 + u) ^ ((everyNth c i obs).length - 1) * (1 + ud) - 1)
+            * (((column (everyNth c i obs) j).map (|·|)).sum / (everyNth c i obs).length)
+        + u * (((column (everyNth c i obs) j).map fun x => |x - mf.getD j 0|).sum
+                / (everyNth c i obs).length) := by
+  rw [flPhaseMeanLoop_eq] at hf
+  simp only [List.getElem?_map, List.getElem?_range hi, Option.map_some, Option.some.injEq] at hf
+  have hrows : ∀ r ∈ everyNth c i obs, r.length = n := fun r hr => h r (mem_everyNth _ _ _ _ hr)
+  have hlen : mf.length = n := flColMean_length F.ops n _ hrows mf hf
+  have hrow : flMeanRow F.ops c obs i = mf := by simp [flMeanRow, hf]
+  rw [flAnomaly_phase_slice F.ops c n obs hc i hi, hrow,
+    column_map_flVsub F.ops n j hj _ mf hrows hlen]
+  have hne : everyNth c i obs ≠ [] := by
+    have := everyNth_phase_ne_nil c hc obs i hT
+    rwa [Nat.mod_eq_of_lt hi] at this
+  have hcne : column (everyNth c i obs) j ≠ [] := by
+    intro h0
+    have := congrArg List.length h0
+    rw [column_length'] at this
+    exact hne (List.length_eq_zero_iff.1 (by simpa using this))
+  obtain ⟨m, hm⟩ : ∃ m, colMean n (everyNth c i obs) = some m :=
+    ⟨_, colMean_of_ne_nil n _ hne⟩
+  have h1 := anomaly_mean_error F (mf.getD j 0) (column (everyNth c i obs) j) hcne
+  have h2 := flColMean_error F hu hud n j hj _ hrows m mf hm hf
+  rw [colMean_getD n _ j m hrows hj hm, abs_sub_comm] at h2
+  rw [column_length'] at h1 h2
+  exact h1.trans (by linarith)
+
+/-! ### the two IEEE instances (the model the driver executes) -/
+
+/-- **binary64**: the phase mean NumPy computes for a float64 / int64 observable (sum over axis 0
+row after row) is within `((1+2⁻⁵³)^k − 1) · mean|x|` of the exact phase mean -/
+theorem ieee_phase_mean_error (c n i j : Nat) (obs : Mat) (h : ∀ r ∈ obs, r.length = n)
+    (hi : i < c) (hj : j < n) (m mf : Vec)
+    (hm : (phaseMeanLoop c n obs)[i]? = some (some m))
+    (hf : (flPhaseMeanLoop ops64 c n obs)[i]? = some (some mf)) :
+    |mf.getD j 0 - m.getD j 0|
+      ≤ ((1 + u64) ^ ((everyNth c i obs).length - 1) * (1 + u64) - 1)
+          * (((column (everyNth c i obs) j).map (|·|)).sum / (everyNth c i obs).length) :=
+  float_exec_phase_mean_error ieee64 u64_nonneg u64_nonneg c n i j obs h hi hj m mf hm hf
+
+/-- **binary32 path** (float32 observables): the same with `u = 2⁻²⁴`, `ud = 2⁻²⁴ + 2⁻⁵²` -/
+theorem ieee32_phase_mean_error (c n i j : Nat) (obs : Mat) (h : ∀ r ∈ obs, r.length = n)
+    (hi : i < c) (hj : j < n) (m mf : Vec)
+    (hm : (phaseMeanLoop c n obs)[i]? = some (some m))
+    (hf : (flPhaseMeanLoop ops32 c n obs)[i]? = some (some mf)) :
+    |mf.getD j 0 - m.getD j 0|
+      ≤ ((1 + u32) ^ ((everyNth c i obs).length - 1) * (1 + (u32 + 1 / 2 ^ 52)) - 1)
+          * (((column (everyNth c i obs) j).map (|·|)).sum / (everyNth c i obs).length) :=
+  float_exec_phase_mean_error ieee32 u32_nonneg (add_nonneg u32_nonneg (by positivity))
+    c n i j obs h hi hj m mf hm hf
+
+/-- **binary64 add-back**: `anomaly()[t][j] + phase_mean()[t % c][j]` is `observable()[t][j]` up to
+`2⁻⁵³ · |observable − phase mean|`, for every sample of every record and cycle length -/
+theorem ieee_anomaly_add_phase_mean (c n : Nat) (obs : Mat) (hc : 0 < c)
+    (h : ∀ r ∈ obs, r.length = n) (t : Nat) (ht : t < obs.length) :
+    ∃ mf a, (flPhaseMeanLoop ops64 c n obs)[t % c]? = some (some mf)
+      ∧ (flAnomalyOf ops64 c n obs)[t]? = some a
+      ∧ a.length = n
+      ∧ ∀ j, j < n →
+          |a.getD j 0 + mf.getD j 0 - obs[t].getD j 0| ≤ u64 * |obs[t].getD j 0 - mf.getD j 0| :=
+  float_exec_anomaly_add_phase_mean ieee64 c n obs hc h t ht
+
+/-- **binary32 add-back** -/
+theorem ieee32_anomaly_add_phase_mean (c n : Nat) (obs : Mat) (hc : 0 < c)
+    (h : ∀ r ∈ obs, r.length = n) (t : Nat) (ht : t < obs.length) :
+    ∃ mf a, (flPhaseMeanLoop ops32 c n obs)[t % c]? = some (some mf)
+      ∧ (flAnomalyOf ops32 c n obs)[t]? = some a
+      ∧ a.length = n
+      ∧ ∀ j, j < n →
+          |a.getD j 0 + mf.getD j 0 - obs[t].getD j 0| ≤ u32 * |obs[t].getD j 0 - mf.getD j 0| :=
+  float_exec_anomaly_add_phase_mean ieee32 c n obs hc h t ht
+
+/-- **binary64 zero phase mean** of the anomalies as executed -/
+theorem ieee_anomaly_phase_mean_error (c n i j : Nat) (obs : Mat) (hc : 0 < c)
+    (h : ∀ r ∈ obs, r.length = n) (hi : i < c) (hT : i < obs.length) (hj : j < n) (mf : Vec)
+    (hf : (flPhaseMeanLoop ops64 c n obs)[i]? = some (some mf)) :
+    |(column (everyNth c i (flAnomalyOf ops64 c n obs)) j).sum / (everyNth c i obs).length|
+      ≤ ((1 + u64) ^ ((everyNth c i obs).length - 1) * (1 + u64) - 1)
+            * (((column (everyNth c i obs) j).map (|·|)).sum / (everyNth c i obs).length)
+        + u64 * (((column (everyNth c i obs) j).map fun x => |x - mf.getD j 0|).sum
+                / (everyNth c i obs).length) :=
+  float_exec_anomaly_phase_mean_error ieee64 u64_nonneg u64_nonneg c n i j obs hc h hi hT hj mf hf
+
+/-- **after every history** of window changes, queries and cache evictions: the phase mean computed
+in floating point from the *current* window is within the proved bound of the memoised exact
+`phase_mean()`, and the computed anomalies add back to the current observable up to one rounding
+(composition with `queries_follow_window` — the float clauses follow every window change too) -/
+theorem float_exec_after_history {u ud : ℚ} (F : FlArith u ud) (hu : 0 ≤ u) (hud : 0 ≤ ud)
+    (o : Obj) (ops : List Op) (hinv : o.Inv) :
+    let o' := o.run ops
+    let obs := o'.cur.obs
+    let n := o'.cur.lat.length
+    (∀ i j m mf, i < o'.cycle → j < n → o'.phaseMeanQ.1[i]? = some (some m) →
+        (flPhaseMeanLoop F.ops o'.cycle n obs)[i]? = some (some mf) →
+        |mf.getD j 0 - m.getD j 0|
+          ≤ ((1 + u) ^ ((everyNth o'.cycle i obs).length - 1) * (1 + ud) - 1)
+              * (((column (everyNth o'.cycle i obs) j).map (|·|)).sum
+                  / (everyNth o'.cycle i obs).length))
+    ∧ (0 < o'.cycle → ∀ t (ht : t < obs.length), ∃ mf a,
+        (flPhaseMeanLoop F.ops o'.cycle n obs)[t % o'.cycle]? = some (some mf)
+          ∧ (flAnomalyOf F.ops o'.cycle n obs)[t]? = some a ∧ a.length = n
+          ∧ ∀ j, j < n →
+              |a.getD j 0 + mf.getD j 0 - obs[t].getD j 0|
+                ≤ u * |obs[t].getD j 0 - mf.getD j 0|) := by
+  intro o' obs n
+  have h := run_inv o ops hinv
+  have hq := (queries_follow_window o ops hinv).1
+  refine ⟨fun i j m mf hi hj hm hf => ?_, fun hc t ht => ?_⟩
+  · rw [hq] at hm
+    exact float_exec_phase_mean_error F hu hud o'.cycle n i j obs h.curWF.cols hi hj m mf hm hf
+  · exact float_exec_anomaly_add_phase_mean F o'.cycle n obs hc h.curWF.cols t ht
+
+/-- numbers with a significand below `2⁵³` are fixed points of the rounding (binary64 numbers are
+exactly the values the model can return) -/
+theorem ieee_representable_fixed (m : ℕ) (e : ℤ) (hm : m < 2 ^ 53) :
+    rn64 ((m : ℚ) * (2 : ℚ) ^ e) = (m : ℚ) * (2 : ℚ) ^ e ∧
+      rn64 (-((m : ℚ) * (2 : ℚ) ^ e)) = -((m : ℚ) * (2 : ℚ) ^ e) := by
+  have h0 : (0 : ℚ) ≤ (m : ℚ) * (2 : ℚ) ^ e := by positivity
+  have h1 : rn64 ((m : ℚ) * (2 : ℚ) ^ e) = (m : ℚ) * (2 : ℚ) ^ e := by
+    unfold rn64
+    rw [if_neg (not_lt.2 h0)]
+    exact rn53_dyadic m e hm
+  exact ⟨h1, by rw [rn64_neg, h1]⟩
+
+/-- **on integer data the binary64 execution is the rational model**: if the observable consists
+of integers bounded by `B` with `(T+1)·B < 2⁵³` and every phase sum is divisible by the number of
+samples of the phase (the harness's exact-integer stream: multiples of `lcm(1..⌈T/c⌉)`), then no
+operation of `phase_mean()` / `anomaly()` rounds — the doubles the code returns are exactly the
+rationals of the model, which is why that stream compares them for equality -/
+theorem float_exact_on_integer_data (c n : Nat) (B : ℕ) (obs : Mat) (hc : 0 < c)
+    (h : ∀ r ∈ obs, r.length = n) (hint : ∀ r ∈ obs, ∀ x ∈ r, ∃ z : ℤ, x = z ∧ |z| ≤ B)
+    (hB : (obs.length + 1) * B < 2 ^ 53)
+    (hdiv : ∀ i j, i < c → j < n → ∃ z : ℤ,
+      (column (everyNth c i obs) j).sum = ((everyNth c i obs).length : ℚ) * z) :
+    flPhaseMeanLoop ops64 c n obs = phaseMeanLoop c n obs
+      ∧ flAnomalyOf ops64 c n obs = anomalyOf c n obs :=
+  ⟨flPhaseMeanLoop_exact_on_integers c n B obs h hint
+      (lt_of_le_of_lt (Nat.mul_le_mul_right B (Nat.le_succ _)) hB) hdiv,
+   flAnomalyOf_exact_on_integers c n B obs hc h hint hB hdiv⟩
+
+example : flPhaseMeanLoop ops64 2 1 [[2], [4], [6], [8]] = phaseMeanLoop 2 1 [[2], [4], [6], [8]]
+    ∧ flAnomalyOf ops64 2 1 [[2], [4], [6], [8]] = [[-2], [-2], [2], [2]] := by
+  decide +kernel
+
+/-! ### the comparisons of `set_window` in `float32` (NumPy 2: a Python-float bound is converted to
+the grid's `float32`) -/
+
+/-- **on `float32` numbers the `float32` comparison is the exact comparison**: if the coordinates
+of the full grid and the six window bounds are binary32 numbers, `Data.set_window` with every
+comparison carried out in `float32` (`applyWindow32`) selects exactly what the exact model
+(`applyWindow`, §1–§3) selects — the interpretation assumption "coordinates and bounds are
+float32-exact" is the hypothesis of this theorem, under which all window theorems apply to the
+code as executed -/
+theorem float32_comparison_exact (full : View) (w : Win) (hw : w.IsF32)
+    (ht : ∀ t ∈ full.time, IsF32 t) (hla : ∀ t ∈ full.lat, IsF32 t) (hlo : ∀ t ∈ full.lon, IsF32 t) :
+    applyWindow32 full w = applyWindow full w := applyWindow32_eq full w hw ht hla hlo
+
+/-- the same for the object: `set_window` as executed is `Obj.setWindow` -/
+theorem setWindow32_eq_setWindow (o : Obj) (w : Win) (hw : w.IsF32)
+    (ht : ∀ t ∈ o.full.time, IsF32 t) (hla : ∀ t ∈ o.full.lat, IsF32 t)
+    (hlo : ∀ t ∈ o.full.lon, IsF32 t) : o.setWindow32 w = o.setWindow w := by
+  unfold Obj.setWindow32 Obj.setWindow Obj.dataSetWindow
+  rw [applyWindow32_eq o.full w hw ht hla hlo]
+  cases applyWindow o.full w <;> rfl
+
+/-- **the hypothesis is needed** (counter-model; the reason for the interpretation decision): the
+Python float `1 + 2⁻³⁰` is not a binary32 number and is converted to `1.0f`, so the window
+`[1 + 2⁻³⁰, 5/2]` on the time stamps `1, 2, 3` exposes the sample at `t = 1`, which lies outside
+the requested closed window -/
+theorem float32_bound_rounding_changes_selection :
+    let full : View := ⟨[1, 2, 3], [0], [0], [[10], [20], [30]]⟩
+    let w : Win := ⟨1 + 1 / 2 ^ 30, 5 / 2, 0, 0, 0, 0⟩
+    (applyWindow32 full w).map (·.time) = some [1, 2]
+      ∧ (applyWindow full w).map (·.time) = some [2] := by
+  decide +kernel
+
+example : IsF32 (5 / 2) ∧ IsF32 (-(1 / 8)) :=
+  ⟨⟨5, -1, false, by norm_num, by norm_num⟩, ⟨1, -3, true, by norm_num, by norm_num⟩⟩
+
+/-- non-vacuity / the model really rounds: `1 + 2⁻⁵³` is a tie and goes to the even neighbour `1`,
+`1/3` is not representable, a representable sum is returned exactly; in binary32 `1 + 2⁻²⁴` is the tie -/
+example : ops64.add 1 (1 / 2 ^ 53) = 1 ∧ ops64.div 1 3 ≠ 1 / 3 ∧ ops64.add (3 / 2) (-1 / 4) = 5 / 4
+    ∧ ops32.add 1 (1 / 2 ^ 24) = 1 ∧ ops32.add 1 (3 / 2 ^ 24) = 1 + 1 / 2 ^ 22
+    ∧ ops32.div 1 3 ≠ ops64.div 1 3 := by
+  decide +kernel
+
+example : flPhaseMeanLoop ops64 2 1 [[1], [1 / 3], [1 / 2 ^ 53]]
+    = [some [1 / 2], some [ops64.div (1 / 3) 1]] := by
+  decide +kernel
 
 end Pyunicorn.Window
